@@ -188,7 +188,11 @@ class RCA_Supervised(RCA):
                     ' version 0.6.3 and will be removed in 0.7.0'
                     '', FutureWarning)
       n_chunks = num_chunks
-    self.num_chunks = 'deprecated'  # To avoid no_attribute error
+      num_chunks = 'deprecated'
+    # the placeholder is stored as received: clone requires the stored
+    # parameter to be the object that was passed (an unpickled estimator
+    # carries an equal but distinct string)
+    self.num_chunks = num_chunks  # To avoid no_attribute error
     self.n_chunks = n_chunks
     self.chunk_size = chunk_size
     self.random_state = random_state
